@@ -6,6 +6,11 @@ ALL = ["C%02d" % i for i in range(1, 21)]
 
 # id -> (category, technique, level text, level note, design section)
 CHECKS = {
+ "C15": ("exploration",
+         "differential runtime monitoring of sstable::Dictionary and tantivy::termdict against a BTreeMap model, with harness-side automata run naively over every key; merges against sorted unions and ordinal maps; out-of-order insertions must be rejected",
+         "Held (apart from the listed known finding) on the dictionaries generated (quick ~800 cases, thorough ~68 000): get/term_ord/ord_to_term/term_ord_or_next/range(ge,gt,le,lt,limit)/prefix_range/search(automaton)/stream for 4 value types, block lengths 16..4000 and 1..1000+ blocks (crossing the 128-entry block-address store), keys up to 40 KB, shared prefixes around the keep/add >= 16 escape, 0x00/0xFF runs; fst termdict around 255/256/257 and 511..513 term-info block edges; sstable / TermMerger / columnar dictionary merges with old->new ordinal maps; IndexWriter::merge of 2-6 segments; duplicate / earlier / prefix / empty keys at every block position must be refused.",
+         "Trusted: the BTreeMap model and the harness automata (whose can_match / will_always_match contract is itself checked).",
+         "DESIGN.md §7 C15"),
  "C06": ("exploration",
          "differential runtime monitoring: every TopDocs variant (score, fast fields, string, tweak, custom sort key computers, tuples; K/offset grid; single and multi-threaded executor) vs entries O..O+K of an exhaustive non-pruning collector on the same searcher",
          "Held on the searches executed (quick ~26 k, thorough ~3e5) over corpora with massive ties, block-max edge cases, postings > 128 and > 4096, 1-8 segments, deletes, missing values: exact equality for single-leaf scores, two-term sums and all non-score keys, 4n-ulp order-statistic check for longer sums, paging enumerates every match once. Three defects of the unchanged tree are listed in known_findings.txt. NaN/-0.0 keys, negative boosts and multi-valued sort fields are not generated.",
